@@ -104,7 +104,8 @@ func runScenario(sc *Scenario, replay []simrt.Decision) *outcome {
 			c := &taskCtx{id: i}
 			w.ctx = append(w.ctx, c)
 			p := &sc.Tasks[i]
-			sim.Spawn("task", func() { w.runProgram(c, p) })
+			t := sim.Spawn("task", func() { w.runProgram(c, p) })
+			t.Tag = c
 		}
 	})
 	simrt.EnableShared(false)
